@@ -45,6 +45,13 @@ Theorem C02_edge_labels : forall g l mu,
 Proof. exact (fun g l mu => conj (induced_ok_spec g l mu) (fun o1 n1 o2 n2 => match_respects_edge_labels g l mu o1 n1 o2 n2)). Qed.
 Print Assumptions C02_edge_labels.
 
+(* which atoms a link atom may identify: name, residue name (choice) and every further attribute it states *)
+Theorem C02_atom_selection : forall la a,
+  atom_ok la a = true <->
+  ra_name a = la_name la /\ In (ra_resname a) (la_resnames la) /\ (forall kv, In kv (la_attrs la) -> In kv (ra_attrs a)).
+Proof. exact atom_ok_spec. Qed.
+Print Assumptions C02_atom_selection.
+
 (* every link atom identifies exactly one atom of its residue *)
 Theorem C02_link_atoms_unique : forall g mu las m,
   match_atoms g mu las = Some m ->
@@ -67,11 +74,11 @@ Print Assumptions C02_relative_order.
 
 Open Scope string_scope.
 Example C02_nonvacuous :
-  let at1 k := {| ra_key := k; ra_name := "EC"; ra_resname := "PEO" |} in
+  let at1 k := {| ra_key := k; ra_name := "EC"; ra_resname := "PEO"; ra_attrs := [] |} in
   let g := {| m_nodes := [{| mn_key := 0; mn_resid := 1; mn_atoms := [at1 0] |}; {| mn_key := 1; mn_resid := 2; mn_atoms := [at1 1] |};
                           {| mn_key := 2; mn_resid := 3; mn_atoms := [at1 2] |}];
               m_edges := [(0, 1); (1, 2)]; m_labels := [] |} in
-  let la k o := {| la_key := k; la_name := "EC"; la_order := o; la_resnames := ["PEO"]; la_replace := [] |} in
+  let la k o := {| la_key := k; la_name := "EC"; la_order := o; la_resnames := ["PEO"]; la_replace := []; la_attrs := [] |} in
   let l := {| l_atoms := [la "EC" (ONum 0); la "+EC" (ONum 1)];
               l_inters := [{| li_sec := "bonds"; li_atoms := ["EC"; "+EC"]; li_params := ["1"; "0.33"; "7000"]; li_version := 1; li_meta := [] |}];
               l_edges := [("EC", "+EC")]; l_res_nodes := [ONum 0; ONum 1]; l_res_edges := [(ONum 0, ONum 1)]; l_res_labels := [] |} in
